@@ -72,6 +72,20 @@ def run(rep, tier, seed):
             else:
                 add({"rparts": [("prim", "flags"), fan], "cond": cond, "cast": None}, {"flags": tw, "n": 1}, "raw")
             continue
+        if rng.random() < 0.03:
+            # trees with SEVERAL xor nodes of which one fails because both its operands hold (its own row is then the only
+            # source of a reason) while another one holds: every failing node still carries its reasons, row by row
+            L = lambda fn, *a: ("leaf", {"datum": "value", "pre": "none", "fn": fn, "actuals": list(a), "akw": {}})  # noqa: E731
+            both = ("xor", L("greater_than", 0), L("less_than", 10))          # false for 1..9
+            one = ("xor", L("greater_than", 100), L("less_than", 10))         # true for 1..9
+            neither = ("xor", L("greater_than", 100), L("less_than", 0))      # false for 1..9
+            cond = rng.choice([("and", both, one), ("and", one, both), ("or", both, neither), ("xor", both, neither),
+                               ("and", ("xor", both, one), both), ("or", neither, ("and", both, one)), ("xor", one, ("xor", both, one))])
+            nodes = [rng.choice([5, 1, 9, 3]), rng.choice([50, -3, 200]), rng.choice([5, "a", None, 2.5])]
+            rng.shuffle(nodes)
+            fan = {"rk": "list", "key": None, "index": None, "value": None, "cond": None, "label": None}
+            add({"rparts": [("prim", "t"), fan], "cond": cond, "cast": None}, {"t": nodes, "n": 1}, rng.choice(["raw", "Data"]))
+            continue
         if rng.random() < 0.06:
             # tuple-typed arguments: a tuple is not == to the list with the same items, and isinstance takes (nested)
             # tuples of classes - the rule must judge with the argument exactly as cond.test does
